@@ -25,6 +25,15 @@ Sub-spaces
               1:2, -3:2 and 2: S^e <-> R^e (R another spelling of the same dimension), through the intermediate R^e,
               and refusal of S^e <-> R^e' for the neighbouring exponents e' (dimension = table dimension x exponent)
 
+  unreduced   exponents that are written unreduced or only combine to an integer (added after seed C04-r7s3: dimension
+              vectors compared in an unreduced form): for every table unit S carrying a fractional dimension (statC,
+              abA, Fr ...) and the first spelling of every other dimension group, R another spelling of its dimension:
+              S2:2 <-> R, S6:2 <-> R3, S1:2*S1:2 <-> R, S3:2*S1:2 <-> R2 (all magnitudes, both directions, back); the
+              fractional units and their squares against their own expansion in base units (statC <-> m1:2*g1:2*s-1
+              x factor, statC2 <-> m*g*s-2 ...); and the quantity a root operator returns - np.sqrt(q), q**0.5,
+              q**(1,2), np.power(q, 0.5) of Quantity(x, S2) - must convert from the value and units it reports to R,
+              S and back (only the conversion is judged, not the root itself: C06)
+
   nounit      the target "no unit" given as an empty BaseUnits() object (value(None) / value('') mean "no conversion" in
               the API and are left out): every dimensionless spelling (%, ppth, [pi] ...) converts to it with its
               factor (value(BaseUnits()), to(BaseUnits()), to(Quantity(1))); every refusal representative of non-zero
@@ -71,7 +80,9 @@ RULE = ("a case is one (source unit, target unit[, intermediate unit]) combinati
         "for every magnitude of the stated list; combinations are distinct by construction (ordered pairs/triples of "
         "distinct spellings or expression texts); non-trivial = everything except identity pairs u == v; a history "
         "case is one (start expression, sequence of value/to/rebase steps of the stated length), a shared-origin case "
-        "one (construction, converted object, u, w, v) - all distinct by construction")
+        "one (construction, converted object, u, w, v), an unreduced-exponent case one ordered pair (expression with "
+        "unreduced / combining exponents, plain target) and a rooted case one (unit, root operator) - all distinct by "
+        "construction")
 ASSUMPTIONS = [
     "the magnitude and dimensions columns of the published tables are the specification of factor(u) and of 'same "
     "dimension'",
@@ -999,6 +1010,119 @@ def _shared_triples():
     return out
 
 
+# exponents written unreduced / combining to an integer
+BASE_SYMBOLS = ["m", "g", "s", "K", "C", "cd", "mol", "rad"]       # table symbols of the 8 base dimensions, in order
+ROOT_FORMS = ["np.sqrt", "pow-0.5", "pow-(1,2)", "np.power-0.5"]
+ROOT_XS = [4.0, [4.0, 2.25]]
+
+
+def _unreduced_units():
+    """[(S, R, fractional)]: every prefix-less linear table symbol with a fractional dimension + the first spelling
+    of every other dimension group (not dimensionless); R = another spelling of the dimension (S if it is alone)"""
+    gd = dict(_GROUPS)
+    picked, out = set(), []
+
+    def add(name, fractional):
+        if name in picked:
+            return
+        picked.add(name)
+        sp = _REF.spellings[name]
+        others = [n for n in gd[sp.dims] if n != name]
+        plain = [n for n in others if not _REF.spellings[n].system]
+        out.append((name, (plain or others or [name])[0], fractional))
+    for name in _REF.linear_spellings():
+        sp = _REF.spellings[name]
+        if sp.prefix is None and any(F(c).denominator != 1 for c in sp.dims):
+            add(name, True)
+    for d, names in _GROUPS:
+        if any(c != 0 for c in d):
+            add(names[0], any(F(c).denominator != 1 for c in d))
+    return out
+
+
+def _base_expansion(name, power):
+    """unit operand: the dimension vector of the table unit, to the given power, written in base-unit symbols"""
+    terms = [(b, F(c) * power) for b, c in zip(BASE_SYMBOLS, _REF.spellings[name].dims) if c != 0]
+    return U("*".join(b + units_ref.exp_text(e) for b, e in terms), terms)
+
+
+def _unreduced_pairs(S, R, fractional):
+    """[(u, v)] string-route pairs of one unit (each is run in both directions)"""
+    out = [(U(S + "2:2", [(S, 1)]), U(R)),
+           (U(S + "6:2", [(S, 3)]), _pow(R, F(3))),
+           (U(S + "1:2*" + S + "1:2", [(S, F(1, 2)), (S, F(1, 2))]), U(R)),
+           (U(S + "3:2*" + S + "1:2", [(S, F(3, 2)), (S, F(1, 2))]), _pow(R, F(2)))]
+    if fractional:
+        out += [(U(S), _base_expansion(S, 1)), (_pow(S, F(2)), _base_expansion(S, 2))]
+    return out
+
+
+def _rooted(Quantity, form, x, S):
+    q = Quantity(_scalar_or_array(x), S + "2")
+    if form == "np.sqrt":
+        return np.sqrt(q)
+    if form == "pow-0.5":
+        return q ** 0.5
+    if form == "pow-(1,2)":
+        return q ** (1, 2)
+    if form == "np.power-0.5":
+        return np.power(q, 0.5)
+    raise HarnessError("unknown root form " + form)
+
+
+def check_rooted(case):
+    """sub 'rooted': q = root(Quantity(x, S2)) by one of ROOT_FORMS.  Whatever value y and units t the result reports
+    (t must read as a unit of the dimension of S, otherwise the case is left to C06 and returns 'skipped'), it is a
+    quantity of the dimension of S: value(v) and to(v) must give y*f(t)/f(v) for v in case['vs'], and to(t) back y."""
+    Quantity = _lib()
+    S, form, x = case["s"], case["form"], case["x"]
+    tags = ["root-of-squared-unit", "root:" + form, "array" if isinstance(x, list) else "scalar"] + \
+        _utags(U(S), *case["vs"])
+    o = outcome(lambda: _rooted(Quantity, form, x, S))
+    if o[0] == "err":
+        return "skipped"                       # the root itself is not this property
+    q = o[1]
+    st = outcome(lambda: (q.value(), q.units()))
+    if st[0] == "err":
+        return "skipped"
+    ys = _vals(st[1][0])
+    rd = _REF.split_expression(st[1][1]) if isinstance(st[1][1], str) else None
+    if not rd or _REF.terms_dims(list(rd.items())) != _REF.spellings[S].dims \
+            or not all(isinstance(y, (int, float, np.number)) and math.isfinite(y) for y in ys):
+        return "skipped"
+    t = U(st[1][1], list(rd.items()))
+    for v in case["vs"]:
+        exp = [_expected(float(y), t, v) for y in ys]
+        c1 = dict(case, vs=[v])
+        o = outcome(lambda: q.value(v["text"]))
+        if o[0] == "err":
+            return failure("rooted", c1, [e[0] for e in exp], dict(error=o[1], message=o[2], units=t["text"]),
+                           tags=tags, behaviour="value:raises:" + o[1])
+        if not _all_agree(o[1], exp):
+            return failure("rooted", c1, [e[0] for e in exp], dict(value=[_num(g) for g in _vals(o[1])],
+                                                                    units=t["text"]), tags=tags,
+                           behaviour="value:wrong-value")
+        o = outcome(lambda: _rooted(Quantity, form, x, S).to(v["text"]))
+        if o[0] == "err":
+            return failure("rooted", c1, [e[0] for e in exp], dict(error=o[1], message=o[2], units=t["text"]),
+                           tags=tags, behaviour="to:raises:" + o[1])
+        q2 = o[1]
+        o = outcome(lambda: (q2.value(), q2.units()))
+        if o[0] == "err" or not _all_agree(o[1][0], exp):
+            return failure("rooted", c1, [e[0] for e in exp],
+                           dict(error=o[1], message=o[2]) if o[0] == "err" else
+                           dict(value=[_num(g) for g in _vals(o[1][0])], units=o[1][1]), tags=tags,
+                           behaviour="to:wrong-value")
+        if not _means(o[1][1], v):
+            return failure("rooted", c1, v["text"], o[1][1], tags=tags, behaviour="to:units-not-target")
+        o = outcome(lambda: q2.to(t["text"]).value())
+        if o[0] == "err" or not _all_agree(o[1], [(float(y), False) for y in ys]):
+            return failure("rooted", c1, [float(y) for y in ys],
+                           dict(error=o[1], message=o[2]) if o[0] == "err" else [_num(g) for g in _vals(o[1])],
+                           tags=tags, behaviour="back:" + ("raises:" + o[1] if o[0] == "err" else "wrong-value"))
+    return None
+
+
 # ----------------------------------------------------------------------------------------------- engine
 def _table_failure(case, exp, obs):
     return failure("table", case, exp, obs, tags=["table:" + case["table"], "column:" + case["column"]],
@@ -1008,7 +1132,8 @@ def _table_failure(case, exp, obs):
 def _fixed_alphabet_missing():
     need = [a for a, _ in _LEAVES] + [g[0] for g in GBU] + [t for g in GBU for t, _ in g[1]] \
         + [t for _, terms in _RAD_ONLY for t, _ in terms] + [a for p in DTYPE_GROUPS for a in p] \
-        + [a for fam, fo in HIST_FAMILIES for a in fam + [fo]] + [a for p in DTYPE_RECIPROCAL for a in p]
+        + [a for fam, fo in HIST_FAMILIES for a in fam + [fo]] + [a for p in DTYPE_RECIPROCAL for a in p] \
+        + BASE_SYMBOLS
     return sorted(set(n for n in need if n not in _REF.spellings))
 
 
@@ -1045,6 +1170,8 @@ def plan(tier, seed):
         shards.append(("power", k, 8))
     shards.append(("nounit",))
     for k in range(8):
+        shards.append(("unreduced", k, 8))
+    for k in range(8):
         shards.append(("uncertainty", k, 8))
     for gi in range(len(DTYPE_GROUPS) + 1):
         shards.append(("dtype", gi))
@@ -1054,7 +1181,7 @@ def plan(tier, seed):
         shards.append(("history", lo, min(lo + hstep, nh), HIST_DEPTH[tier]))
     for k in range(4):
         shards.append(("shared", k, 4))
-    order = {"history": -1 if tier != "quick" else 0, "shared": 0, "table": 0, "dtype": 0, "nounit": 0, "uncertainty": 0, "refuse": 0, "number-to-rad": 0, "gbu": 0, "power": 0, "reciprocal": 1, "pair": 2, "compound": 3,
+    order = {"history": -1 if tier != "quick" else 0, "shared": 0, "table": 0, "dtype": 0, "nounit": 0, "uncertainty": 0, "refuse": 0, "number-to-rad": 0, "gbu": 0, "power": 0, "unreduced": 0, "reciprocal": 1, "pair": 2, "compound": 3,
              "triple": 4}
     shards.sort(key=lambda s: order[s[0]])
     return shards
@@ -1166,6 +1293,33 @@ def run_shard(desc):
                             sh.fail(bad)
             if n == 2 and desc[1] == 0:
                 sh.sample(dict(sub="power", u=u["text"], v=v["text"], xs=XS), limit=1)
+    elif kind == "unreduced":
+        for n, (S, R, fractional) in enumerate(_unreduced_units()[desc[1]::desc[2]]):
+            tags = ["unreduced-exponent"] + (["fractional-dimension-unit"] if fractional else [])
+            for u, v in _unreduced_pairs(S, R, fractional):
+                if _REF.terms_dims(_terms(u)) != _REF.terms_dims(_terms(v)):
+                    raise HarnessError("unreduced pair of different dimension: %s %s" % (u["text"], v["text"]))
+                _conv_cases(sh, "unreduced", u, v, XS, ARRAY, tags=tags)
+                _conv_cases(sh, "unreduced", v, u, XS, ARRAY, tags=tags)
+            vs = [U(R)] + ([U(S)] if R != S else [])
+            for form in ROOT_FORMS:
+                bad, done = None, False
+                for x in ROOT_XS:
+                    r = check_rooted(dict(sub="rooted", s=S, form=form, x=x, vs=vs))
+                    sh.evaluations += 1
+                    if r == "skipped":
+                        continue
+                    done = True
+                    if r is not None and bad is None:
+                        bad = r
+                if done:
+                    sh.nontrivial += 1
+                sh.count("rooted:converted" if done else "rooted:root-not-available")
+                if bad is not None:
+                    sh.fail(bad)
+            if n == 0 and desc[1] == 0:
+                sh.sample(dict(sub="unreduced", u=S + "1:2*" + S + "1:2", v=R, xs=XS), limit=1)
+                sh.sample(dict(sub="rooted", s=S, form=ROOT_FORMS[0], vs=[R], xs=ROOT_XS), limit=1)
     elif kind == "uncertainty":
         pairs = [(a, b, True) for a, b in _reciprocal_pairs()]
         pairs += [(U(a), U(b), False) for g in DTYPE_GROUPS for a in g for b in g]
@@ -1315,8 +1469,11 @@ def replay(rec):
     if sub == "table":
         got = units_ref.UnitsRef.replay_schema_case(c)
         r = None if got is None else _table_failure(c, got[0], got[1])
-    elif sub in ("pair", "compound", "reciprocal", "power"):
+    elif sub in ("pair", "compound", "reciprocal", "power", "unreduced"):
         r = check_convert(c)
+    elif sub == "rooted":
+        r = check_rooted(c)
+        r = None if r == "skipped" else r
     elif sub == "number-to-rad":
         r = check_number_to_rad(c)
     elif sub == "nounit":
@@ -1352,7 +1509,7 @@ def finish(total, tier, seed):
             "dtype:int64": 50, "dtype:list": 40, "uncertainty:reciprocal": 1000, "uncertainty:linear": 40,
             "history:len%d" % HIST_DEPTH.get(tier, 3): 40000, "history:query+rebase": 9000, "history:query+to": 25000,
             "shared:select": 2000, "shared:array-baseunits": 200, "shared:array-one-baseunits": 200,
-            "shared:array-string": 200, "shared:rebuilt": 200}
+            "shared:array-string": 200, "shared:rebuilt": 200, "unreduced:converted": 500, "rooted:converted": 200}
     for k, n in need.items():
         if h.get(k, 0) < n:
             raise HarnessError("vacuous sub-space %s: %r" % (k, h))
@@ -1377,6 +1534,13 @@ def finish(total, tier, seed):
         shared_origin_constructions=[b[0] + (":" + b[1][0] if len(b) > 1 else "") for b in SHARED_BUILDS],
         shared_origin_unit_triples=len(_shared_triples()),
         shared_origin_cases=sum(v for k, v in h.items() if k.startswith("shared:")),
+        unreduced_exponent_units=len(_unreduced_units()),
+        unreduced_exponent_fractional_dimension_units=sum(1 for u in _unreduced_units() if u[2]),
+        unreduced_exponent_forms=["S2:2<->R", "S6:2<->R3", "S1:2*S1:2<->R", "S3:2*S1:2<->R2",
+                                  "S<->base expansion, S2<->base expansion (fractional-dimension units)"],
+        unreduced_exponent_pairs=h.get("unreduced:converted", 0),
+        root_forms=ROOT_FORMS, root_magnitudes=ROOT_XS, rooted_cases=h.get("rooted:converted", 0),
+        rooted_root_not_available=h.get("rooted:root-not-available", 0),
     )
 
 
@@ -1398,7 +1562,12 @@ MANIFEST = dict(
          "array, value, units and every value(t) compared after every step; two quantities of common origin (9 "
          "slicings/selections of an array quantity, one caller-owned ndarray given to two quantities, a quantity "
          "rebuilt from value() and the units object of another): either one converted in place, the other must still "
-         "report and convert its own x in u (3 380 cases); table "
+         "report and convert its own x in u (3 380 cases); exponents written unreduced or "
+         "combining to an integer (S2:2, S6:2, S1:2*S1:2, S3:2*S1:2 against R, R3, R, R2 in both directions, and every "
+         "fractional-dimension table unit and its square against its expansion in base units) for the 14 table units "
+         "with fractional dimensions + one spelling of each of the other 56 dimension groups (616 ordered pairs x 7 "
+         "magnitudes + array), and the result of np.sqrt / **0.5 / **(1,2) / np.power(.,0.5) of Quantity(x, S2) "
+         "converted to R, S and back (280 unit x operator cases); table "
          "schema validated. Oracle: "
          "x*f(u)/f(v) in exact rational arithmetic over the published tables, rel 1e-12.",
     note="Float magnitudes are covered by 7 boundary representatives only; compound expressions have <= 3 terms over "
